@@ -105,7 +105,7 @@ impl Prop for C09 {
     }
     fn components(&self) -> Value {
         json!({"real": ["sentinel-core: EntryBuilder, slot chain, system slot/manager, global inbound node (sliding windows, concurrency, min rt, max completed per bucket)"],
-               "stub": ["clock (virtual, hook H1)", "system load/CPU readings (injected, hook H2; collectors never started)", "getrandom (seeded)", "logger (none)"]})
+               "stub": ["clock (virtual, hook H1)", "system load/CPU readings (injected, hook H2; collectors never started)", "getrandom (seeded)", "logger (a sink that formats every record of the library and discards it)"]})
     }
 
     fn generate(&self, rng: &mut Rng, slot_ns: u64, _avoid: bool) -> Value {
